@@ -37,7 +37,12 @@ SetToSeqLeast(S) == IF S = {} THEN <<>> ELSE <<Least(S)>> \o SetToSeqLeast(S \ {
 (*   tr  : sequence (per commit) of root tree numbers                       *)
 (*   ent : sequence (per tree) of sets of child objects (trees, blobs);     *)
 (*         a gitlink entry is NOT an object of any store and is not listed  *)
-(*   lnk : sequence (per tree) of BOOLEAN, the tree also has a gitlink      *)
+(*   lnk : sequence (per tree): 0 no gitlink, -1 a gitlink naming a commit  *)
+(*         of no repository, k > 0 a gitlink naming commit k of this very    *)
+(*         universe (a branch embedded as a submodule).  Whatever it names,  *)
+(*         a gitlink is not an edge: Kids, Closure, TreeObjs and the         *)
+(*         MissingObjectFinder walk never look at it -- in particular an id  *)
+(*         seen in a gitlink says nothing about what the peer has.           *)
 (*   tg  : sequence (per tag) of target objects (commit/tree/blob/tag)      *)
 CommitsOf(U) == {C(i) : i \in 1..Len(U.par)}
 TagsOf(U)    == {G(i) : i \in 1..Len(U.tg)}
